@@ -214,7 +214,7 @@ func (u *Unit) typeFacts(v Term, t types.Type) Term {
 		return and(le(bigLit(lo), v), le(v, bigLit(hi)))
 	case *types.Slice:
 		return and(le(intLit(0), app("soff", SInt, v)), le(intLit(0), app("slen_", SInt, v)),
-			le(app("slen_", SInt, v), app("scap", SInt, v)),
+			le(app("slen_", SInt, v), app("scap", SInt, v)), le(app("scap", SInt, v), bigLit("9223372036854775807")),
 			implies(eq(app("sbase", SInt, v), intLit(0)), eq(app("scap", SInt, v), intLit(0))))
 	case *types.Pointer, *types.Map, *types.Chan:
 		return le(intLit(0), v)
